@@ -53,7 +53,6 @@ Definition url_hostname (host : bytes) : bytes :=
   | ShpErr => match strip_brackets host with Some h => h | None => host end
   end.
 
-Definition pct : byte := "%"%byte.
 (* net/http isDomainOrSubdomain *)
 Definition is_domain_or_subdomain (sub parent : bytes) : bool :=
   if bytes_eqb sub parent then true
